@@ -223,10 +223,48 @@ func RunC02(c *lib.Ctx) {
 				add("fork-only-event", fd[n/2], fg)
 			}
 		}
+		// S9: the complete set of node hashes of the history tree of version q (a server knows all of them):
+		// the verifier picks what it needs, whatever index/version the answer names
+		allNodes := func(q uint64) map[string]hashing.Digest {
+			out := map[string]hashing.Digest{}
+			for h := uint16(0); (uint64(1) << h) <= 2*(q+1); h++ {
+				for i := uint64(0); i <= q; i += uint64(1) << h {
+					out[fmt.Sprintf("%d|%d", i, h)] = l.RH.Node(i, h, q)
+				}
+			}
+			return out
+		}
+		for s := 0; s < c.Q(6, 12); s++ {
+			v := uint64(r.Intn(n))
+			d := l.RH.Digests[v]
+			a := l.Latest[string(d)]
+			g := genuine(l, d, cur)
+			if g == nil {
+				continue
+			}
+			for _, q := range []uint64{a, cur, uint64(r.Intn(n)), uint64(r.Intn(n)), a / 2, a - a/3} {
+				if q > cur {
+					continue
+				}
+				nodes := allNodes(q)
+				for _, av := range []uint64{a, q, uint64(r.Intn(n)), a + 1} {
+					x := cloneRes(g)
+					x.History = map[string]hashing.Digest{}
+					for k, hv := range nodes {
+						x.History[k] = hv
+					}
+					x.QueryVersion, x.ActualVersion = q, av
+					add("all-history-nodes-of-version-q", d, x)
+				}
+			}
+		}
 		// S3: shortcut-leaf replay for never-added digests sharing a member's position prefix
 		for ts, m := range twinOf {
 			t := []byte(ts)
 			mv := l.Latest[string(m)]
+			// the untouched genuine answer of the prefix neighbour, for the never-added digest
+			add("unmodified-answer-of-prefix-neighbour", t, genuine(l, m, cur))
+			add("unmodified-answer-of-prefix-neighbour", t, genuine(l, m, mv))
 			for _, q := range []uint64{cur, mv, 0} {
 				g := genuine(l, m, cur)
 				if g == nil {
